@@ -2,6 +2,7 @@ package props
 
 import (
 	"bytes"
+	"encoding/binary"
 	"fmt"
 	"math/bits"
 	"time"
@@ -688,6 +689,113 @@ func c11filters(c *vf.Ctx, i int) {
 	}
 }
 
+// ---- stream near-colliding-siblings ----------------------------------------
+// Honest blocks in which two sibling leaves have DIFFERENT transaction ids
+// that agree in one aligned 32-bit word (found by a birthday search over lock
+// times, 2^18 candidates per run).  A proof builder / extractor that compares
+// node hashes by anything less than all 32 bytes treats such siblings as the
+// duplicated-node pattern.
+
+type c11nearPair struct {
+	word int
+	a, b *wire.MsgTx
+}
+
+func c11nearTx(prev chainhash.Hash, lock uint32) *wire.MsgTx {
+	return &wire.MsgTx{
+		Version:  1,
+		TxIn:     []*wire.TxIn{{PreviousOutPoint: wire.OutPoint{Hash: prev, Index: 0}, Sequence: 0xfffffffe}},
+		TxOut:    []*wire.TxOut{{Value: 5000}},
+		LockTime: lock,
+	}
+}
+
+func c11nearInit(t vf.Tier, seed uint64) any {
+	prev := chainhash.Hash(c11saltHash(seed, 0x4ea7))
+	raw := make([]byte, 0, 60)
+	raw = append(raw, 1, 0, 0, 0, 1)
+	raw = append(raw, prev[:]...)
+	raw = append(raw, 0, 0, 0, 0, 0, 0xfe, 0xff, 0xff, 0xff, 1, 0x88, 0x13, 0, 0, 0, 0, 0, 0, 0, 0, 0, 0, 0)
+	const cand = 1 << 18
+	ids := make([][32]byte, cand)
+	for l := 0; l < cand; l++ {
+		binary.LittleEndian.PutUint32(raw[len(raw)-4:], uint32(l))
+		ids[l] = ref.Sha256d(raw)
+	}
+	var pairs []c11nearPair
+	for w := 0; w < 8; w++ {
+		seen := make(map[uint32]uint32, cand)
+		found := 0
+		for l := 0; l < cand && found < 4; l++ {
+			k := binary.LittleEndian.Uint32(ids[l][4*w:])
+			if o, ok := seen[k]; ok {
+				a, b := c11nearTx(prev, o), c11nearTx(prev, uint32(l))
+				ia, ib := c11txid(a), c11txid(b)
+				if ia != ids[o] || ib != ids[l] || ia == ib || !bytes.Equal(ia[4*w:4*w+4], ib[4*w:4*w+4]) {
+					panic("harness: near-collision search disagrees with wire serialisation")
+				}
+				pairs = append(pairs, c11nearPair{w, a, b})
+				found++
+				continue
+			}
+			seen[k] = uint32(l)
+		}
+	}
+	return pairs
+}
+
+func c11near(c *vf.Ctx, i int) {
+	pairs, _ := c.Shared.([]c11nearPair)
+	if len(pairs) == 0 {
+		c.Inconclusive("no-near-collision-found")
+		return
+	}
+	p := pairs[i%len(pairs)]
+	n := 2 + c.R.Intn(40)
+	if c.R.Chance(1, 8) {
+		n = 2 + c.R.Intn(600)
+	}
+	salt := c.R.Uint64()
+	prev := chainhash.Hash(c11saltHash(salt, 0))
+	txs := make([]*wire.MsgTx, n)
+	for j := range txs {
+		txs[j] = &wire.MsgTx{Version: 1,
+			TxIn:  []*wire.TxIn{{PreviousOutPoint: wire.OutPoint{Hash: prev, Index: uint32(j)}, Sequence: 0xffffffff}},
+			TxOut: []*wire.TxOut{{Value: int64(j)}}}
+	}
+	at := 2 * c.R.Intn(n/2) // siblings 2k, 2k+1
+	if c.R.Chance(1, 10) && at+2 < n {
+		at++ // neighbours that are not siblings
+		c.Inc("near_pair_not_siblings")
+	}
+	a, b := p.a, p.b
+	if c.R.Bool() {
+		a, b = b, a
+	}
+	txs[at], txs[at+1] = a, b
+	blk := c11finish(salt, txs)
+	matched := make([]bool, n)
+	switch c.R.Intn(6) {
+	case 0:
+		matched[at] = true
+	case 1:
+		matched[at+1] = true
+	case 2:
+		matched[at], matched[at+1] = true, true
+	case 3:
+		matched = c11randomSubset(c.R, n)
+		matched[at+c.R.Intn(2)] = true
+	case 4:
+		for j := range matched {
+			matched[j] = true
+		}
+	default:
+		matched = c11randomSubset(c.R, n)
+	}
+	c.Inc(fmt.Sprintf("sibling_txids_agree_in_word_%d", p.word))
+	c11runTxnSet(c, blk, matched, c.R.Intn(4), c.R)
+}
+
 func init() {
 	register(&vf.Property{
 		ID:    "C11",
@@ -696,6 +804,7 @@ func init() {
 			"stream shapes: every n<=65 x {empty, full, 2 alternating, each singleton, each right-edge run, each left-edge run, each all-but-one, seeded}; " +
 			"stream random: seeded n<=3000 (uniform, around powers of two, odd) x 7 subset densities, hash set given in block/reversed/shuffled/shuffled-with-duplicates order; " +
 			"stream filters: subsets induced by a bloom filter loaded with txids, pushed data and outpoints (update flags none/all/p2pubkey-only, blocks with scripts and in-block spends, also out of topological order) via bloom.NewMerkleBlock and merkleblock.NewMerkleBlockWithFilter on two identically constructed filters. " +
+			"stream near-colliding-siblings: blocks in which two sibling transactions have different ids that agree in one aligned 32-bit word (each of the 8 words; pairs found by a birthday search over 2^18 lock times per run). " +
 			"Each message is compared field by field with the reference BIP37 builder and then extracted (one PartialBlock per extraction). Distinct non-trivial case = (block, subset).",
 		Assumptions: []string{
 			"reference merkle root / BIP37 partial-merkle-tree builder and extractor written from the BIP text (self-tested on hand-derived trees, round trips and two gettxoutproof vectors on every run)",
@@ -715,6 +824,7 @@ func init() {
 			}, Run: c11shapes},
 			{Name: "random", Shards: 8, N: func(t vf.Tier) int { return t.Sz(6000, 60000) }, Run: c11random}, // shards: bchd/wire serialises through one process-wide free list
 			{Name: "filters", Shards: 8, N: func(t vf.Tier) int { return t.Sz(20000, 250000) }, Run: c11filters},
+			{Name: "near-colliding-siblings", Init: c11nearInit, N: func(t vf.Tier) int { return t.Sz(3000, 40000) }, Run: c11near},
 		},
 	})
 }
